@@ -21,7 +21,7 @@ struct H64 {
     void s(const std::string& x) { i((long long)x.size()); bytes(x.data(), x.size()); }
     void v(const Vector& x) { i(x.size()); for (int k = 0; k < x.size(); ++k) d(x[k]); }
     void v3(const Vec3& x) { d(x[0]); d(x[1]); d(x[2]); }
-    void xf(const Transform& X) { for (int a = 0; a < 3; ++a) for (int b = 0; b < 3; ++b) d(X.R()(a, b)); v3(X.p()); }
+    void xf(const Transform& X) { for (int a = 0; a < 3; ++a) for (int b = 0; b < 3; ++b) d(X.R()[a][b]); v3(X.p()); }
 };
 
 // one returned step of a simulation: component hashes (so that a witness can say *what* differed) and the
@@ -203,7 +203,11 @@ static const unsigned FEAT_COMBOS[] = {0, FE_Cons, FE_Contact, FE_Events, FE_Mea
                                        FE_Cons | FE_Contact, FE_Events | FE_Meas, FE_Cons | FE_Motion | FE_Meas, FE_Contact | FE_Cable | FE_Events};
 static const int N_FEAT_COMBOS = (int)(sizeof FEAT_COMBOS / sizeof FEAT_COMBOS[0]);
 
-struct ScenKnobs { int maxBodies = 5; int maxStates = 36; long budget = 6000; };
+// cableSurfaceWithHandlers: a wrapping-surface obstacle makes CableTrackerSubsystem own an event trigger; together with
+// a TriggeredEventHandler/Reporter (DefaultSystemSubsystem) Integrator::initialize() then overruns a heap array in
+// DefaultSystemSubsystem::Guts::calcEventTriggerInfoImpl (System.cpp:1238, reported to the lead with a standalone
+// repro). Until that is repaired the generator gives such scenarios a via point instead (the knob re-enables them).
+struct ScenKnobs { int maxBodies = 5; int maxStates = 36; long budget = 6000; bool cableSurfaceWithHandlers = false; };
 
 struct Scen {
     Model m;
@@ -270,7 +274,7 @@ struct Scen {
                       Force::LinearBushing(m.forces, B(a), randFrame(r, 2), B(b), randFrame(r, 2), k6, c6); } break;
             case 6: Force::GlobalDamper(m.forces, m.matter, r.uni(0.05, 1)); break;
             case 7: Force::Thermostat(m.forces, m.matter, 1.0, r.uni(0.5, 5), r.uni(0.05, 0.5), 0); break;
-            default: Force::MobilityConstantForce(m.forces, B(pickBodyWithU(r) < 0 ? 0 : pickBodyWithU(r)), 0, r.sym(3)); break;
+            default: { int c = pickBodyWithU(r); if (c < 0) continue; Force::MobilityConstantForce(m.forces, B(c), MobilizerUIndex(r.integer(0, pr.nu[c] - 1)), r.sym(3)); } break;
             }
             toggled = ForceIndex(m.forces.getNumForces() - 1);
             ++nForces;
@@ -318,7 +322,7 @@ struct Scen {
             buildContact(r);
         }
         // ---- cable
-        if (feats & FE_Cable) { featKey += "+cable"; buildCable(r); }
+        if (feats & FE_Cable) { featKey += "+cable"; buildCable(r, kn); }
 
         // ---- handlers and reporters
         if (feats & FE_Events) {
@@ -377,10 +381,11 @@ struct Scen {
         std::vector<double> sb = bottoms; std::sort(sb.begin(), sb.end());
         double y0 = sb[std::min<size_t>(1, sb.size() - 1)] + r.uni(0.0, 0.03);
         Transform X_GH(Rotation(-Pi / 2, ZAxis), Vec3(0, y0, 0));
-        auto mat = [&]() { return ContactMaterial(r.logUni(1e3, 1e5), r.uni(0.05, 0.8), r.uni(0.2, 0.9), r.uni(0.1, 0.5), r.uni(0, 0.3)); };
+        auto mat = [&]() { double us = r.uni(0.2, 0.9); return ContactMaterial(r.logUni(1e3, 1e5), r.uni(0.05, 0.8), us, us * r.uni(0.2, 1), r.uni(0, 0.3)); };
         if (contactKind == 0 || contactKind == 1) {
             tracker.reset(new ContactTrackerSubsystem(m.sys)); compliant.reset(new CompliantContactSubsystem(m.sys, *tracker));
             if (r.coin()) compliant->setTransitionVelocity(r.logUni(1e-3, 0.1));
+            if (r.coin()) compliant->setTrackDissipatedEnergy(true);
             m.matter.updGround().updBody().addContactSurface(X_GH, ContactSurface(ContactGeometry::HalfSpace(), mat()));
             for (auto& s : shapes) {
                 Transform X(randRotation(r), s.cB);
@@ -402,16 +407,16 @@ struct Scen {
             }
             if (contactKind == 2) {
                 HuntCrossleyForce hc(m.forces, *gcs, set);
-                for (int i = 0; i <= (int)shapes.size(); ++i) hc.setBodyParameters(ContactSurfaceIndex(i), r.logUni(1e3, 1e5), r.uni(0.05, 0.8), r.uni(0.2, 0.9), r.uni(0.1, 0.5), r.uni(0, 0.3));
+                for (int i = 0; i <= (int)shapes.size(); ++i) { double us = r.uni(0.2, 0.9); hc.setBodyParameters(ContactSurfaceIndex(i), r.logUni(1e3, 1e5), r.uni(0.05, 0.8), us, us * r.uni(0.2, 1), r.uni(0, 0.3)); }
             } else {
                 ElasticFoundationForce ef(m.forces, *gcs, set);
-                for (int i = 1; i <= (int)shapes.size(); ++i) ef.setBodyParameters(ContactSurfaceIndex(i), r.logUni(1e3, 1e5), r.uni(0.05, 0.8), r.uni(0.2, 0.9), r.uni(0.1, 0.5), r.uni(0, 0.3));
+                for (int i = 1; i <= (int)shapes.size(); ++i) { double us = r.uni(0.2, 0.9); ef.setBodyParameters(ContactSurfaceIndex(i), r.logUni(1e3, 1e5), r.uni(0.05, 0.8), us, us * r.uni(0.2, 1), r.uni(0, 0.3)); }
             }
         } else {
             for (auto& s : shapes) {
                 if (s.kind == 0) {
                     SmoothSphereHalfSpaceForce ss(m.forces);
-                    ss.setParameters(r.logUni(1e3, 1e6), r.uni(0.05, 1), r.uni(0.2, 0.9), r.uni(0.1, 0.5), r.uni(0, 0.3), r.logUni(1e-3, 0.1), 1e-5, 300, 50);
+                    double us = r.uni(0.2, 0.9); ss.setParameters(r.logUni(1e3, 1e6), r.uni(0.05, 1), us, us * r.uni(0.2, 1), r.uni(0, 0.3), r.logUni(1e-3, 0.1), 1e-5, 300, 50);
                     ss.setContactSphereBody(B(s.body)); ss.setContactSphereLocationInBody(s.cB); ss.setContactSphereRadius(s.rad);
                     ss.setContactHalfSpaceBody(m.matter.updGround()); ss.setContactHalfSpaceFrame(X_GH);
                 } else {
@@ -424,7 +429,7 @@ struct Scen {
             }
         }
     }
-    void buildCable(Rng& r) {
+    void buildCable(Rng& r, const ScenKnobs& kn) {
         int nb = (int)m.bodies.size();
         cables.reset(new CableTrackerSubsystem(m.sys));
         int a = r.integer(0, nb - 1), b = pickOther(r, a);
@@ -432,6 +437,7 @@ struct Scen {
         paths.emplace_back(new CablePath(*cables, B(a), s1, B(b), s2));
         Vec3 p1 = XG(a) * s1, p2 = XG(b) * s2; double L = (p2 - p1).norm();
         int obst = r.integer(0, 2);
+        if (obst == 2 && (feats & FE_Events) && !kn.cableSurfaceWithHandlers) obst = 1;
         if (obst == 1) { int v = pickBody(r, true); Vec3 sv = randVec3(r, .5); CableObstacle::ViaPoint(*paths.back(), B(v), sv); Vec3 pv = XG(v) * sv; L = (pv - p1).norm() + (p2 - pv).norm(); }
         else if (obst == 2) {
             // a sphere on Ground centred a little off the straight segment so that the cable has to wrap
@@ -439,7 +445,7 @@ struct Scen {
             Vec3 ctr = mid + 0.5 * rad * Vec3(d);
             if ((p1 - ctr).norm() > 1.2 * rad && (p2 - ctr).norm() > 1.2 * rad) {
                 CableObstacle::Surface sf(*paths.back(), m.matter.updGround(), Transform(ctr), ContactGeometry::Sphere(rad));
-                sf.setNearPoint(-rad * Vec3(d) * 0 + rad * (mid - ctr) / std::max(1e-9, (mid - ctr).norm()));
+                sf.setNearPoint(rad * (mid - ctr) / std::max(1e-9, (mid - ctr).norm()));
                 L += rad;
             }
         }
@@ -557,11 +563,12 @@ struct Run {
               finite = allFinite(s.getQ()) && allFinite(s.getU()) && allFinite(s.getUDot());
           } catch (const std::exception& e) { realized = false; hd.s(std::string("realize failed: ") + e.what()); }
           r.hDeriv = hd.h; r.hMult = hm.h; }
-        { H64 h; h.i(integ->isStateInterpolated()); h.d(integ->getAdvancedTime()); h.d(integ->getPreviousStepSizeTaken()); h.d(integ->getPredictedNextStepSize());
+        { H64 h; try { h.i(integ->isStateInterpolated()); h.d(integ->getAdvancedTime()); h.d(integ->getPreviousStepSizeTaken()); h.d(integ->getPredictedNextStepSize());
           h.d(integ->getActualInitialStepSizeTaken()); h.d(integ->getAccuracyInUse()); h.d(integ->getConstraintToleranceInUse());
           h.i(integ->getNumStepsAttempted()); h.i(integ->getNumStepsTaken()); h.i(integ->getNumRealizations()); h.i(integ->getNumQProjections()); h.i(integ->getNumUProjections());
           h.i(integ->getNumErrorTestFailures()); h.i(integ->getNumConvergenceTestFailures()); h.i(integ->getNumRealizationFailures()); h.i(integ->getNumQProjectionFailures());
           h.i(integ->getNumUProjectionFailures()); h.i(integ->getNumConvergentIterations()); h.i(integ->getNumDivergentIterations()); h.i(integ->getNumIterations());
+          } catch (const std::exception& e) { h.s(e.what()); }
           r.hStats = h.h; }
         { hev.i((long long)ctl.log.h); hev.i(ctl.logEntries); r.hEvents = hev.h; }
         { H64 h;
@@ -575,12 +582,12 @@ struct Run {
               try {
                   int n = sc.compliant->getNumContactForces(s); h.i(n);
                   for (int i = 0; i < n; ++i) { const ContactForce& f = sc.compliant->getContactForce(s, i); h.v3(f.getContactPoint()); h.v3(f.getForceOnSurface2()[0]); h.v3(f.getForceOnSurface2()[1]); h.d(f.getPotentialEnergy()); h.d(f.getPowerDissipation()); }
-                  h.d(sc.compliant->getDissipatedEnergy(s));
+                  if (sc.compliant->getTrackDissipatedEnergy()) h.d(sc.compliant->getDissipatedEnergy(s));
               } catch (const std::exception& e) { h.s(e.what()); }
           }
           if (realized && sc.gcs) {
               try { for (ContactSetIndex cs(0); cs < sc.gcs->getNumContactSets(); ++cs) { const Array_<Contact>& ct = sc.gcs->getContacts(s, cs); h.i(ct.size());
-                        for (int i = 0; i < (int)ct.size(); ++i) { h.i((int)ct[i].getSurface1()); h.i((int)ct[i].getSurface2()); if (PointContact::isInstance(ct[i])) { const PointContact& pc = PointContact::getAs(ct[i]); h.d(pc.getDepth()); h.v3(pc.getLocation()); } } }
+                        for (int i = 0; i < (int)ct.size(); ++i) { h.i((int)ct[i].getSurface1()); h.i((int)ct[i].getSurface2()); if (PointContact::isInstance(ct[i])) { const PointContact& pc = static_cast<const PointContact&>(ct[i]); h.d(pc.getDepth()); h.v3(pc.getLocation()); } } }
               } catch (const std::exception& e) { h.s(e.what()); }
           }
           for (auto& p : sc.paths) { if (!realized) break; try { h.d(p->getCableLength(s)); h.d(p->getCableLengthDot(s)); } catch (const std::exception& e) { h.s(e.what()); } }
